@@ -971,8 +971,11 @@ def industrial_strategy(tier):
         "target": st.sampled_from(["shifted", "shifted", "pooled", "pooled", "batch", "conveyor", "gate"]),
         "n": st.integers(1, 3), "qcap": st.sampled_from([0, 0, 1, 2]), "svc": st.sampled_from([0, 1, 2, 3]),
         "tmo": st.sampled_from([0, 1, 3, 5]),
-        "windows": st.lists(st.tuples(st.integers(0, 10), st.integers(1, 5), st.integers(0, 3)), min_size=1, max_size=3),
+        # gap 0 = back-to-back windows (close of one and open of the next on the same instant)
+        "windows": st.lists(st.tuples(st.sampled_from([0, 0, 0, 1, 2, 3, 5, 8]), st.integers(1, 5), st.integers(0, 3)), min_size=1, max_size=3),
         "default": st.integers(0, 2), "open": st.booleans(),
+        # a burst of extra direct arrivals on one instant (backlog behind several units that then finish together)
+        "burst": st.sampled_from([0, 0, 3, 5, 7, 9]), "burst_t": st.sampled_from([0, 0, 1, 2]),
         "arrivals": st.lists(arr, min_size=1, max_size=14 if big else 10),
     })
 
@@ -987,6 +990,7 @@ def industrial_execute(case):
     svc = int(case.get("svc", 1)) % 8
     tmo = int(case.get("tmo", 0)) % 8
     arrivals = [a for a, _ in expand_arrivals((case.get("arrivals") or [])[:16])]
+    arrivals += [{"t": int(case.get("burst_t", 0) or 0) % 4, "hops": 0}] * (int(case.get("burst", 0) or 0) % 10)
     seen = {}
     order = []
 
@@ -1045,7 +1049,49 @@ def industrial_execute(case):
             comp.queue.policy = rec
     elif kind == "pooled":
         from happysimulator.components.industrial.pooled_cycle import PooledCycleResource
-        comp = PooledCycleResource("srv", pool_size=n, cycle_time=ticks(svc), downstream=sink, queue_capacity=qcap)
+        PS = S["pool"] = {"in": [], "handoff": [], "fresh_started_at": []}
+
+        class PC(PooledCycleResource):       # Entity subclass: observe what happens to every delivery
+            def handle_event(self, event):
+                rid = event.context["rid"]
+                now_ns = self.now.nanoseconds
+                q0, rj0 = self.queued, self.rejected
+                ho = next((h for h in PS["handoff"] if h["rid"] == rid and not h["seen"]), None)
+                res = super().handle_event(event)
+                if isinstance(res, list):
+                    if ho is not None:
+                        ho["seen"] = True
+                        # a waiting item was taken out of the line and put back (or rejected) instead of being started
+                        # (a new arrival that slips in between the hand-off and its delivery takes the unit: barging by a
+                        # request that never waited is not judged, only noted)
+                        barged = any(t == now_ns and seq > ho["base"] for t, seq in PS["fresh_started_at"])
+                        if not barged:
+                            bad("misordered/dequeued-item-lost-its-turn", f"at {tk(now_ns)} request {rid} was dequeued for a free unit "
+                                f"but found none and was {'re-queued at the back' if self.queued > q0 else 'rejected'}; in service "
+                                f"{PS['in']} pool_size={n}; no new arrival took the unit in between")
+                        else:
+                            r.labels.append("dequeued-item-overtaken-by-new-arrival")
+                    return res
+                if ho is not None:
+                    ho["seen"] = True
+                else:
+                    PS["seq"] = PS.get("seq", 0) + 1
+                    PS["fresh_started_at"].append((now_ns, PS["seq"]))
+                return self._observe(res, rid)
+
+            def _observe(self, gen, rid):
+                PS["in"].append(rid)
+                if len(PS["in"]) > n:
+                    bad("over-limit", f"at {tk(self.now.nanoseconds)} cycles running for {PS['in']} pool_size={n}")
+                out = yield from gen
+                PS["in"].remove(rid)
+                for e in out or []:
+                    if e.target is self:
+                        PS["seq"] = PS.get("seq", 0) + 1
+                        base = min([h["seq"] for h in PS["handoff"] if not h["seen"]] + [PS["seq"]])
+                        PS["handoff"].append({"rid": e.context["rid"], "seen": False, "seq": PS["seq"], "base": base})
+                return out
+        comp = PC("srv", pool_size=n, cycle_time=ticks(svc), downstream=sink, queue_capacity=qcap)
     elif kind == "batch":
         from happysimulator.components.industrial.batch_processor import BatchProcessor
         comp = BatchProcessor("srv", sink, batch_size=n, process_time=ticks(svc), timeout_s=ticks(tmo))
@@ -1114,6 +1160,10 @@ def industrial_execute(case):
                 waited[0] = True
                 if comp.is_open:
                     bad("stranded/gate-open", f"clock leaves {tk(t_ns)} with the gate open and {comp.queue_depth} queued")
+                elif any(a * TICK <= t_ns < b * TICK for a, b, _ in wins):
+                    # the schedule is a list of (open_at, close_at) intervals: inside one of them the gate has to be open
+                    bad("stranded/gate-shut-inside-scheduled-window", f"clock leaves {tk(t_ns)} with {comp.queue_depth} queued and the gate "
+                        f"shut although the schedule {[(a, b) for a, b, _ in wins]} (ticks) says open")
         elif kind == "batch":
             inproc = offered - comp.buffer_depth - comp.items_processed
             if inproc < 0 or comp.items_processed != done:
